@@ -69,6 +69,12 @@ def dec_value(v):
         return tuple(dec_value(i) for i in x)
     if t in ("date", "time", "datetime"):
         return getattr(datetime, t).fromisoformat(x)
+    if t in ("XmlPeriod", "XmlDuration"):
+        return {"XmlPeriod": XmlPeriod, "XmlDuration": XmlDuration}[t](x)
+    if t in ("XmlDate", "XmlTime", "XmlDateTime"):
+        return {"XmlDate": XmlDate, "XmlTime": XmlTime, "XmlDateTime": XmlDateTime}[t].from_string(x)
+    if t == "Unreg0":
+        return Unreg0()
     raise ValueError(t)
 
 
@@ -163,7 +169,16 @@ def run(op):
         if k == "test":
             return {"ok": bool(converter.test(op["s"], [ty(t, enums) for t in op["types"]], strict=op.get("strict", False), **kw))}
         if k == "from_value":
-            return {"ok": DataType.from_value(dec_value(op["v"])).name}
+            v = dec_value(op["v"])
+            out = {"ok": DataType.from_value(v).name}
+            if isinstance(v, XmlPeriod):
+                out["ymd"] = [v.year, v.month, v.day]
+            if not isinstance(v, (bytes, Unreg0, datetime.date, datetime.time)):
+                try:
+                    out["ser"] = converter.serialize(v)
+                except ValueError:  # str(int) beyond the interpreter's digit limit
+                    pass
+            return out
         if k == "float_facts":
             # the CPythonFloat hypotheses, sampled
             x = float.fromhex(op["x"]) if op["x"] not in ("nan", "inf", "-inf") else float(op["x"])
